@@ -210,6 +210,16 @@ def run_property(prop, tier, seed, replay):
         body = {"what": "correspondence could not be run: " + "; ".join(e[:300] for e in report["errors"])}
         violations.append((write_replay(prop, body), False))
 
+    # the work directory can hold gigabytes of traces in the thorough tier: nothing in it is
+    # needed any more (replays are self-contained files under replays/)
+    for root, _dirs, files in os.walk(work):
+        for fn in files:
+            fp = os.path.join(root, fn)
+            try:
+                if os.path.getsize(fp) > (1 << 20) or not violations:
+                    os.remove(fp)
+            except OSError:
+                pass
     wall = time.time() - t0
     coverage = {
         "obligations": obligations, "discharged": discharged if not violations else min(discharged, obligations - 1),
